@@ -22,7 +22,6 @@
 
 from serde import serde, strict, field
 from beartype.typing import Optional, List, Dict, Any
-import math
 
 from .metadata import MetaData
 
@@ -70,11 +69,7 @@ class Enum:
 
     def get_packed_size(self) -> int:
         """Get packed enum size."""
-        m = self.max()
-        if m == 1 or m == 0:
-            return 1
-        else:
-            return math.floor(math.log2(m) + 1)
+        return max(1, int(self.max()).bit_length())
 
     def max(self) -> int:
         """Get max enum value."""
